@@ -10,8 +10,15 @@ void GMGPolar::solve()
     /* Statistics and the smoother selection describe this solve only. */
     residual_norms_.clear();
     exact_errors_.clear();
-    if (extrapolation_ == ExtrapolationType::COMBINED) {
+    switch (extrapolation_) {
+    case ExtrapolationType::NONE:
+    case ExtrapolationType::IMPLICIT_FULL_GRID_SMOOTHING:
+    case ExtrapolationType::COMBINED:
         full_grid_smoothing_ = true;
+        break;
+    default:
+        full_grid_smoothing_ = false;
+        break;
     }
 
     /* ---------------------------- */
